@@ -26,11 +26,11 @@ def families(tier):
     f = [("full", "FULL", G.FULL, 1, False), ("full", "FULL", G.FULL, 2, False)]
     if tier == "thorough":
         f += [("full", "FULL", G.FULL, 3, False), ("mid", "MID", G.MID, 4, False), ("special", "SPECIAL", G.SPECIAL, 4, False),
-              ("global", "GLOBAL", G.GLOBAL, 5, False), ("core_m", "CORE_M", G.CORE_M, 5, False),
+              ("global", "GLOBAL", G.GLOBAL, 5, False), ("array", "ARRAY", G.ARRAY, 5, False), ("core_m", "CORE_M", G.CORE_M, 5, False),
               ("fresh", "FULL", G.FULL, 1, True), ("fresh", "FULL", G.FULL, 2, True), ("fresh", "CORE_S", G.CORE_S, 4, True)]
     else:
         f += [("mid", "MID", G.MID, 3, False), ("special", "SPECIAL", G.SPECIAL, 3, False), ("global", "GLOBAL", G.GLOBAL, 4, False),
-              ("core_s", "CORE_S", G.CORE_S, 4, False),
+              ("array", "ARRAY", G.ARRAY, 4, False), ("core_s", "CORE_S", G.CORE_S, 4, False),
               ("fresh", "FULL", G.FULL, 1, True), ("fresh", "FULL", G.FULL, 2, True)]
     return f
 
@@ -329,6 +329,11 @@ def run(chk):
     load_tier_lists(chk)
     ex = Explorer(chk, isolate=known_histories(tier))
     fams = families(tier)
+    only = os.environ.get("VERIF_C06_ONLY")       # authoring-time: run a subset of the families (evidence is then marked non-exhaustive)
+    if only:
+        fams = [f for f in fams if f[0] in only.split(",")]
+        chk.cov["caps_hit"].append("VERIF_C06_ONLY=%s: only these families were run" % only)
+        chk.cov["exhaustive"] = False
     t = time.time()
     ex.run([(fam_key(name, aname, depth), G.histories(alpha, depth), depth, fresh) for name, aname, alpha, depth, fresh in fams])
     chk.cov["explore_wall_s"] = round(time.time() - t, 1)
@@ -372,7 +377,7 @@ def run(chk):
         "comparisons of per-history traces; up to 64 histories share one context per mode but every history has textually fresh "
         "site function literals (own CodeBlocks, own inline caches) and fresh objects; `fresh` families run one history per context "
         "and must agree with the batched run; distinct_outcomes = distinct caches-off traces")
-    chk.cov["alphabets"] = {"FULL": G.FULL, "MID": G.MID, "SPECIAL": G.SPECIAL, "GLOBAL": G.GLOBAL, "CORE_M": G.CORE_M, "CORE_S": G.CORE_S}
+    chk.cov["alphabets"] = {"FULL": G.FULL, "MID": G.MID, "SPECIAL": G.SPECIAL, "GLOBAL": G.GLOBAL, "ARRAY": G.ARRAY, "CORE_M": G.CORE_M, "CORE_S": G.CORE_S}
     for h in [("p.a=", "get_o", "del_p.a", "get_o"), ("p.a=", "get_o", "g_p", "get_o"), ("OP.a=", "gr", "G.a=", "gr")]:
         chk.sample({"hist": list(h), "src": G.script([h])[len(G.PROLOGUE):]})
     for h, on, off in ex.diverge[:3]:
